@@ -10,9 +10,10 @@
     lib/icinga/pluginutility.cpp    ExitStatusToState 85-97, ParseCheckOutput 99-127, SplitPerfdata 129-178
     lib/methods/pluginchecktask.cpp ProcessFinishedHandler 65-97
 
-  Core Lean only.  Strings are byte lists (`List UInt8`, no NUL).  Values are restricted to what the
-  property quantifies over: Empty, strings, arrays of strings (numbers, booleans, dictionaries and
-  functions as macro values are outside the model; the model answers `unsupported` instead of guessing).
+  Core Lean only.  Strings are byte lists (`List UInt8`, no NUL).  Values: Empty, strings, arrays of
+  strings, booleans and integer-valued numbers (`vars.http_ssl = true`, `vars.port = 3306`); fractional
+  numbers, dictionaries and functions as macro values are outside the model (the model answers
+  `unsupported` instead of guessing).
 -/
 namespace Icinga.C09
 
@@ -46,18 +47,38 @@ def sTermA : Bytes := [60, 84, 101, 114, 109, 105, 110, 97, 116, 101, 100, 32, 1
 def sTermB : Bytes := [32, 40, 48, 120]                                    -- " (0x"
 def sTermC : Bytes := [41, 46, 62]                                         -- ").>"
 
-/-- An Icinga `Value` as far as the model goes: `Empty`, a `String`, an `Array` of strings. -/
+/-- An Icinga `Value` as far as the model goes: `Empty`, a `String`, an `Array` of strings, a `Boolean`,
+    an integer-valued `Number`. -/
 inductive Val
   | empty
   | str (b : Bytes)
   | arr (l : List Bytes)
+  | bool (b : Bool)
+  | num (n : Int)
   deriving Repr, DecidableEq, Inhabited
 
-/-- `static_cast<String>(value)` for Empty and String (value-operators.cpp:38-60). -/
+def natDigitsF : Nat → Nat → Nat → Bytes
+  | 0, _, _ => []
+  | f + 1, base, n =>
+    let d := n % base
+    let c : UInt8 := if d < 10 then UInt8.ofNat (48 + d) else UInt8.ofNat (55 + d)
+    if n < base then [c] else natDigitsF f base (n / base) ++ [c]
+
+def natDigits (base n : Nat) : Bytes := natDigitsF (n + 1) base n
+
+/-- `Value::operator String` for a Boolean (value-operators.cpp:47-51). -/
+def boolBytes (b : Bool) : Bytes := if b then sTrue else sFalse
+
+/-- `Convert::ToString(double)` for an integer-valued number (convert.cpp:20-31: `std::fixed`, precision 0). -/
+def intBytes (n : Int) : Bytes := if n < 0 then 45 :: natDigits 10 n.natAbs else natDigits 10 n.natAbs
+
+/-- `static_cast<String>(value)` (value-operators.cpp:38-60); an Array has no scalar text. -/
 def Val.scalarBytes : Val → Option Bytes
   | .empty => some []
   | .str b => some b
   | .arr _ => none
+  | .bool b => some (boolBytes b)
+  | .num n => some (intBytes n)
 
 inductive Err
   | recursion     -- "Infinite recursion detected while resolving macros"          (macroprocessor.cpp:240)
@@ -166,6 +187,8 @@ def escapeMacroShellArg : Val → Bytes
   | .arr l => joinWith [SPACE] (l.map escapeShellArg)
   | .str b => escapeShellArg b
   | .empty => escapeShellArg []
+  | .bool b => escapeShellArg (boolBytes b)      -- `Utility::EscapeShellArg(const String&)`: implicit conversion
+  | .num n => escapeShellArg (intBytes n)
 
 /-- Token escaping of `Utility::Join(…, ';', escapeSeparator = true)` (utility.cpp:1017-1027). -/
 def escSemi : Bytes → Bytes
@@ -233,6 +256,8 @@ def expandCore (look : Bytes → Lookup) (rec : Bytes → Res) (name : Bytes) : 
               pure (Val.arr r, m)
           | .str b => rec b
           | .empty => pure (Val.empty, false)
+          | .bool b => pure (Val.bool b, false)     -- neither Array nor String (:289, :305): left as it is
+          | .num n => pure (Val.num n, false)
         else pure (v1, false) : Res)
       pure (v2, found, m2)
 
@@ -315,6 +340,16 @@ def Raw.isEmpty : Raw → Bool
   | .str b => b.isEmpty
   | .arr _ => false
 
+/-- A configuration value given as a Boolean or a Number (`value = 3306`, `set_if = true`): not empty
+    (value.cpp:114), scalar, and handed to `InternalResolveMacros(const String& str, …)` — i.e. converted to
+    its text first (macroprocessor.cpp:35-37). -/
+def Raw.ofVal : Val → Raw
+  | .empty => .empty
+  | .str b => .str b
+  | .arr l => .arr l
+  | .bool b => .str (boolBytes b)
+  | .num n => .str (intBytes n)
+
 /-- Array branch (:38-55): every element on its own, never escaped; an array result is joined by `;`. -/
 def resolveArrayElems (look : Bytes → Lookup) (fuel : Nat) : List Bytes → Except Err (List Bytes × Bool)
   | [] => pure ([], false)
@@ -324,6 +359,8 @@ def resolveArrayElems (look : Bytes → Lookup) (fuel : Nat) : List Bytes → Ex
       | .arr l => joinSemi l
       | .str b => b
       | .empty => []
+      | .bool x => boolBytes x
+      | .num n => intBytes n
     let (r, m2) ← resolveArrayElems look fuel es
     pure (b :: r, m1 || m2)
 
@@ -450,6 +487,8 @@ def emitArg (a : RArg) : List Bytes :=
   | .arr l => emitArr a true l
   | .str b => addArgumentHelper a.key b (!a.skipKey) (!a.skipValue) a.sep
   | .empty => addArgumentHelper a.key [] (!a.skipKey) (!a.skipValue) a.sep
+  | .bool x => addArgumentHelper a.key (boolBytes x) (!a.skipKey) (!a.skipValue) a.sep   -- `const String& value` (:407)
+  | .num n => addArgumentHelper a.key (intBytes n) (!a.skipKey) (!a.skipValue) a.sep
 
 def emitAll : List RArg → List Bytes
   | [] => []
@@ -480,7 +519,9 @@ def resolveCommand (look : Bytes → Lookup) (level : Nat) (cmd : Cmd) (hasArgs 
     pure (match v with
       | .arr l => .argv l
       | .str b => .sh b
-      | .empty => .sh [])
+      | .empty => .sh []
+      | .bool x => .sh (boolBytes x)      -- unreachable: the command is resolved with the escape function (a String)
+      | .num n => .sh (intBytes n))
 
 /-- MacroProcessor::ResolveArguments called with `recursionLevel = level` (0 from ExecuteCommand). -/
 def resolveArguments (look : Bytes → Lookup) (level : Nat) (cmd : Cmd) (args : Option (List ArgSpec)) : Except Err CmdOut := do
@@ -492,6 +533,20 @@ def resolveArguments (look : Bytes → Lookup) (level : Nat) (cmd : Cmd) (args :
     match base with
     | .argv l => pure (.argv (l ++ emitAll (sortArgs rs)))
     | .sh _ => throw .unsupported   -- unreachable: with arguments the command is always an array
+
+/-! ## Environment of the plugin (PluginUtility::ExecuteCommand, pluginutility.cpp:46-71) -/
+
+/-- The text of one `env` entry: the definition (a String) resolved with `recursionLevel = 0` and WITHOUT an
+    escape function (:56-58), an Array result joined by `;` (:66-67); the flag says whether a macro was missing
+    (the code only logs that).  A failure leaves `ExecuteCommand` as an exception. -/
+def envValue (look : Bytes → Lookup) (raw : Bytes) : Except Err (Bytes × Bool) := do
+  let (v, m) ← resolveMacros look 0 false (.str raw)
+  match v with
+  | .arr l => pure (joinSemi l, m)
+  | .str b => pure (b, m)
+  | .empty => pure ([], m)
+  | .bool x => pure (boolBytes x, m)
+  | .num n => pure (intBytes n, m)
 
 /-! ## POSIX sh word splitting, restricted (parameter of the property; validated against /bin/sh) -/
 
@@ -641,15 +696,6 @@ def splitPerfdataAux : Nat → Bytes → Bytes → List Bytes
 
 def splitPerfdata (p : Bytes) : List Bytes := splitPerfdataAux (p.length + 1) p []
 
-def natDigitsF : Nat → Nat → Nat → Bytes
-  | 0, _, _ => []
-  | f + 1, base, n =>
-    let d := n % base
-    let c : UInt8 := if d < 10 then UInt8.ofNat (48 + d) else UInt8.ofNat (55 + d)
-    if n < base then [c] else natDigitsF f base (n / base) ++ [c]
-
-def natDigits (base n : Nat) : Bytes := natDigitsF (n + 1) base n
-
 /-- The text the pinned tree appends for an exit status above 3 (pluginchecktask.cpp:79-84).  The WORDING is
     not part of the property: `processFinished` takes the marker as an input (the harness reads the
     implementation's own marker), this transcription only documents the current text. -/
@@ -669,5 +715,37 @@ def processFinished (suffix : Bytes) (exit : Int) (rawOutput : Bytes) : CrObs :=
   let out := if exit > 3 then out ++ suffix else out                        -- :72-85 (`suffix` = the marker text)
   let co := parseCheckOutput out                                            -- :87
   { state := exitToState exit, exit := exit, output := co.1, perfdata := splitPerfdata co.2 }
+
+/-! ## How the plugin process ended (process.cpp:1049-1190, POSIX branch) -/
+
+/-- What `waitpid` reported for the plugin. -/
+inductive WaitStatus
+  | exited (code : Nat)     -- WIFEXITED / WEXITSTATUS
+  | signaled (sig : Nat)    -- WIFSIGNALED / WTERMSIG
+  | failed                  -- waitpid failed, or neither of the two
+  deriving Repr, DecidableEq
+
+/-- The exit status `Process::DoEvents` reports (:1145-1176): the plugin's own exit code only when it exited by
+    itself and no SIGTERM had been sent; 128 when it was terminated by a signal, when SIGTERM had been sent
+    before it exited (:1157-1160), when it could not be killed or `waitpid` failed. -/
+def processExit (sentSigterm couldNotKill : Bool) : WaitStatus → Int
+  | .exited c => if couldNotKill then 128 else if sentSigterm then 128 else c
+  | .signaled _ => 128
+  | .failed => 128
+
+/-- One run as `Process` sees it.  `deadlinePassed`: the timeout expired while the plugin was running — then
+    SIGTERM was sent first (`m_SentSigterm`, :1057-1072) and, at 1.1 × timeout, SIGKILL to the plugin's process
+    group (:1085). -/
+structure Ending where
+  deadlinePassed : Bool
+  couldNotKill : Bool
+  wait : WaitStatus
+  deriving Repr, DecidableEq
+
+def Ending.exit (e : Ending) : Int := processExit e.deadlinePassed (e.deadlinePassed && e.couldNotKill) e.wait
+
+/-- The plugin did not end by its own `exit`. -/
+def Ending.killed (e : Ending) : Bool :=
+  e.deadlinePassed || (match e.wait with | .exited _ => false | _ => true)
 
 end Icinga.C09
